@@ -21,7 +21,7 @@ LEVEL = "model_checking"
 TINY = [("p11a", 11, 8, 0), ("p11b", 11, 1, 6), ("p13a", 13, 0, 3), ("p23a", 23, 1, 2), ("p19a", 19, 16, 9)]
 QUICK_INT = TINY + [("p67a", 67, 64, 1), ("p73a", 73, 70, 32), ("p103a", 103, 1, 2)]
 THOROUGH_INT = QUICK_INT + [("p131a", 131, 1, 24), ("p193a", 193, 0, 2), ("p751a", 751, 748, 5), ("p1019a", 1019, 1016, 7),
-                            ("p1021a", 1021, 3, 11), ("p509a", 509, 1, 0), ("p1013a", 1013, 1010, 4)]
+                            ("p1021a", 1021, 3, 11), ("p509a", 509, 1, 0)]
 # multi-word primes (all = 3 mod 4), by ring strategy of zmCreate in the 64-bit build
 BIGP = {
     "b64":   "FFFFFFFFFFFFFF43",                                   # one full word, plain ring
@@ -298,8 +298,14 @@ def compare(ctx, t, rows, build, stats):
     return cnt
 
 
-# assert-enabled ASan builds, 64- and 32-bit words: an internal precondition tripped by an admissible input aborts
-BUILDS = {"asan": ("asan", []), "asan-w32": ("asanw32", [])}
+# assert-enabled ASan builds, 64- and 32-bit words: an internal precondition tripped by an admissible input aborts.
+# Curves with more than BIG_N points (thorough tier: 10^6 ordered pairs x 24 call shapes) run in the release builds.
+BUILDS = {"asan": ("asan", []), "asan-w32": ("asanw32", []), "rel": ("rel", []), "w32": ("w32", [])}
+BIG_N = 300
+
+
+def builds_for(t):
+    return ["rel", "w32"] if t.n > BIG_N else ["asan", "asan-w32"]
 
 
 def read_rows(path):
@@ -423,7 +429,7 @@ def run(ctx):
     states = trans = 0
     ints = QUICK_INT if ctx.quick else THOROUGH_INT
     bigs = QUICK_BIG if ctx.quick else THOROUGH_BIG
-    builds = list(BUILDS)
+    builds = list(BUILDS) if not ctx.quick else ["asan", "asan-w32"]
     drvs = {b: vlib.harness("drv_ec", ["drv_ec.c"], BUILDS[b][0], lib_extra=BUILDS[b][1]) for b in builds}
     # ---- everything TLC-side runs concurrently: (0) oracle validation, (2) record lines, (1) the tables
     jobs = []
@@ -460,7 +466,7 @@ def run(ctx):
     def one(t, b):
         rows = run_curve(ctx, t, b, tier, stats, drvs[b])
         return t, b, rows
-    outs = vlib.parallel([(lambda t=t, b=b: one(t, b)) for t in tables for b in builds], n=8)
+    outs = vlib.parallel([(lambda t=t, b=b: one(t, b)) for t in sorted(tables, key=lambda x: -x.n) for b in builds_for(t)], n=8)
     per_op = {}
     for t, b, rows in outs:
         c = compare(ctx, t, rows, b, stats)
